@@ -382,6 +382,8 @@ def run(fx, tier):
     # fixed-header flags that depend on the history of the packet: DUP (shared with C03)
     from c03 import dup_flag_rule, set_dup_rule
     dup_flag_rule(fx, v, 'C17')
+    from c03 import pubrel_content_rule
+    pubrel_content_rule(fx, v, 'C17')
     v.rule('R-OWN', 'set_dup changes exactly the DUP bit')
     set_dup_rule(fx, v, 'C17')
     v.expect_min('R-TABLE', 100, 'static_assert rows')
